@@ -52,6 +52,8 @@ package sample
 //@   allocates
 //@   ensures result != nil && fresh(result)
 //@   summary scval(result) == sc_from(old(hstate(rand))) && hstate(rand) == hadv(old(hstate(rand)))
+// A-RAND: a sampled scalar is non-zero (fails with probability 2^-256)
+//@   summary scval(result) != s_zero()
 
 //@ func ScalarUnit
 //@   nopanic[C05]
